@@ -23,7 +23,8 @@ From FV Require Import Model.PegSyntax Model.Peg Model.PegWf Model.ParserStrings
      Model.Parser Model.ParserFiles Gen.Grammar Proofs.PegProofs Proofs.ParserProofs Proofs.ParserLexProofs
      Proofs.ParserEvals Proofs.ParserRoundTrip Proofs.ParserRoundTripEnum Proofs.ParserPrefixProofs
      Proofs.ParserRoundTripStruct Proofs.ParserRoundTripConst Proofs.ParserRoundTripService Proofs.ParserRoundTripFile
-     Proofs.ParserFragmentCheck Proofs.ParserKeywordProofs.
+     Proofs.ParserFragmentCheck Proofs.ParserKeywordProofs Proofs.ParserFilesProofs.
+From FV Require Model.CompilerTotal Model.CompilerValidate Proofs.CompilerTotalProofs Proofs.CompilerValidateProofs.
 Import ListNotations.
 Open Scope Z_scope.
 
@@ -450,6 +451,106 @@ Theorem c10_enum_ref_constant_accepted :
 Proof. exact w_enum_ref_constant. Qed.
 Print Assumptions c10_enum_ref_constant_accepted.
 
+(** * Stage 7. ParseFrugal and validation: one model
+
+    [Frugal.validate] and [parseFrugal] are transcribed ONCE in this tree: [cvalidate] / [cparse] of
+    Model/CompilerValidate.v, whose diagnostics the C11 judge compares byte for byte with the code.
+    [ParserFiles.validate] / [parse_program] (what Judge/JParser.v replays against ParseFrugal on
+    program texts) are DEFINED from them, the diagnostic text forgotten; the theorems below state that
+    and carry C11's facts over. *)
+Module CV := CompilerValidate.
+Module CVP := CompilerValidateProofs.
+
+Theorem c10_validate_agrees_with_c11 : forall f incs,
+  (ParserFiles.validate f incs = VOk <-> CV.cvalidate (CV.validate_fuel f incs) f incs = CV.ROk)
+  /\ (ParserFiles.validate f incs = VErr <-> exists m, CV.cvalidate (CV.validate_fuel f incs) f incs = CV.RErr m)
+  /\ (ParserFiles.validate f incs = VPanic <-> CV.cvalidate (CV.validate_fuel f incs) f incs = CV.RPanic)
+  /\ (ParserFiles.validate f incs = VFuel <-> CV.cvalidate (CV.validate_fuel f incs) f incs = CV.RFuel).
+Proof. exact validate_agrees. Qed.
+Print Assumptions c10_validate_agrees_with_c11.
+
+(** [parsed_fs fs]: every text replaced by what the PEG parser makes of it *)
+Theorem c10_parse_program_agrees_with_c11 : forall fs root pfs,
+  parsed_fs fs = Some pfs ->
+  (forall t, parse_program fs root = FOk t <-> CV.cparse_program pfs root = CV.POk t)
+  /\ (parse_program fs root = FErr <-> exists m, CV.cparse_program pfs root = CV.PErr m)
+  /\ (parse_program fs root = FPanic <-> CV.cparse_program pfs root = CV.PPanic)
+  /\ (parse_program fs root = FFuel <-> CV.cparse_program pfs root = CV.PFuel).
+Proof. exact parse_program_agrees. Qed.
+Print Assumptions c10_parse_program_agrees_with_c11.
+
+(** on every parse tree whose names the grammar can produce, over validated includes, validation
+    answers ok or error: no panic, and the fuel [validate_fuel] is enough *)
+Theorem c10_validate_total : forall f incs,
+  CVP.file_names_ok f -> CVP.incs_wellvalidated incs ->
+  ParserFiles.validate f incs = VOk \/ ParserFiles.validate f incs = VErr.
+Proof. exact validate_total. Qed.
+Print Assumptions c10_validate_total.
+
+(** ParseFrugal on a file system of texts on each of which the PEG interpreter gives a verdict and
+    whose parse trees have grammatical names: a tree or an error, and an accepted tree is validated all
+    the way down (UnderlyingType terminates on it: C11) *)
+Theorem c10_parse_program_total : forall fs root,
+  texts_decided fs -> texts_names_ok fs ->
+  ((exists t, parse_program fs root = FOk t) \/ parse_program fs root = FErr)
+  /\ forall t, parse_program fs root = FOk t -> CompilerTotalProofs.wellvalidated (CV.reduce_tree t).
+Proof. exact parse_program_total. Qed.
+Print Assumptions c10_parse_program_total.
+
+(** the same with the DECIDABLE form of the hypotheses, which Judge/JParser.v evaluates on every
+    program it replays against ParseFrugal ([parse_program_checked] answers, in one pass, whether the
+    PEG interpreter gave a verdict on every text and every parsed file has grammatical names
+    ([file_names_okb]), together with the result): whenever the check says yes, [parse_program] is
+    that result, it is a tree or an error, and an accepted tree is validated all the way down *)
+Theorem c10_parse_program_checked_total : forall fs root r,
+  parse_program_checked fs root = Some (true, r) ->
+  parse_program fs root = fres_of r
+  /\ ((exists t, parse_program fs root = FOk t) \/ parse_program fs root = FErr)
+  /\ forall t, parse_program fs root = FOk t -> CompilerTotalProofs.wellvalidated (CV.reduce_tree t).
+Proof. exact parse_program_checked_total. Qed.
+Print Assumptions c10_parse_program_checked_total.
+
+Theorem c10_names_check_sound : forall f, file_names_okb f = true -> CVP.file_names_ok f.
+Proof. exact file_names_okb_sound. Qed.
+Print Assumptions c10_names_check_sound.
+
+(** what [validate] accepts satisfies the checks the repository's repairs added: every extended
+    service exists and no extends chain is circular; every thrown type is an exception; field ids and
+    field names of every struct, union and exception are pairwise distinct; every type reference is
+    valid; typedefs are acyclic *)
+Theorem c10_validated_file : forall f incs,
+  ParserFiles.validate f incs = VOk ->
+  (forall s, In s (fr_services f) -> CVP.extends_ok f incs s)
+  /\ (forall s m a, In s (fr_services f) -> In m (sv_methods s) -> In a (m_throws m) ->
+         CV.is_exception (CV.validate_fuel f incs) f incs (CV.reduce f incs) (f_type a) = Some true)
+  /\ (forall s, In s (fr_structs f ++ fr_unions f ++ fr_exceptions f) ->
+         NoDup (map f_id (s_fields s)) /\ NoDup (map f_name (s_fields s)))
+  /\ (forall t, In t (map td_type (fr_typedefs f) ++ CV.file_uses f
+                      ++ flat_map (fun s => map o_type (sc_ops s)) (fr_scopes f)) ->
+         CV.valid_ty (CV.reduce f incs) t = true)
+  /\ CompilerTotal.validate_typedefs (CV.reduce f incs) = true.
+Proof. exact validate_ok_consequences. Qed.
+Print Assumptions c10_validated_file.
+
+(** the same checks on program text through the PEG parser: a dangling extends, a circular extends,
+    a thrown struct, a repeated field name, a repeated argument name, a repeated exception id and an
+    extends of a service the include does not have are rejected by ParseFrugal; their valid
+    neighbours are accepted *)
+Theorem c10_repaired_validation_instances :
+  is_ferr (parse_program [(main_frugal, pf_dangling_extends)] main_frugal) = true
+  /\ is_ferr (parse_program [(main_frugal, pf_circular_extends)] main_frugal) = true
+  /\ is_fok (parse_program [(main_frugal, pf_good_extends)] main_frugal) = true
+  /\ is_ferr (parse_program [(main_frugal, pf_throws_struct)] main_frugal) = true
+  /\ is_fok (parse_program [(main_frugal, pf_throws_exception)] main_frugal) = true
+  /\ is_ferr (parse_program [(main_frugal, pf_dup_field_name)] main_frugal) = true
+  /\ is_ferr (parse_program [(main_frugal, pf_dup_arg_name)] main_frugal) = true
+  /\ is_ferr (parse_program [(main_frugal, pf_dup_throws_id)] main_frugal) = true
+  /\ is_fok (parse_program [(main_frugal, pf_throws_two)] main_frugal) = true
+  /\ is_ferr (parse_program [(main_frugal, pf_inc_extends_root); (base_frugal, pf_inc_extends_base)] main_frugal) = true
+  /\ is_fok (parse_program [(main_frugal, pf_inc_extends_root_ok); (base_frugal, pf_inc_extends_base)] main_frugal) = true.
+Proof. exact repaired_checks_rejected. Qed.
+Print Assumptions c10_repaired_validation_instances.
+
 (** * Non-vacuity *)
 Example c10_enum_numbering_nonvacuous :
   let ev n v := (mkev None [n] v [], true) in
@@ -605,6 +706,13 @@ Proof.
 Qed.
 
 (** the model of ParseFrugal resolves includes relative to the including file and detects cycles *)
+Example c10_parse_program_checked_nonvacuous :
+  exists t, parse_program_checked [(main_frugal, pf_inc_extends_root_ok); (base_frugal, pf_inc_extends_base)] main_frugal
+            = Some (true, CV.POk t)
+  /\ exists m, parse_program_checked [(main_frugal, pf_inc_extends_root); (base_frugal, pf_inc_extends_base)] main_frugal
+               = Some (true, CV.PErr m).
+Proof. eexists. split; [vm_compute; reflexivity|]. eexists. vm_compute. reflexivity. Qed.
+
 Example c10_includes_nonvacuous :
   is_fok (parse_program [(main_frugal, idl "include ""sub/inc.thrift""");
                          ([bytes_of_string "sub"; bytes_of_string "inc.thrift"], idl "include ""../base.frugal""");
